@@ -35,3 +35,46 @@ func vxH06Reneg(dotu bool) {
 	vxQuiesce()
 	vxReach("done")
 }
+
+// H06.ufsauth: fids the framework creates and destroys without the Unix file server ever attaching its own state
+// to them: a Tauth (Ufs offers no authentication, the fresh afid is released at once), a Tattach naming an
+// existing fid as afid, a Tattach whose aname does not exist (symbolic bytes), then a hang-up with fids alive.
+func vxH06UfsAuth(dotu bool) {
+	k := vxNewUfsKit(dotu, 8192)
+	root := k.rootDir()
+	k.fs.addFile(root, "f", 0644, []byte{1, 2, 3})
+	nc := vxNewNetConn()
+	k.ufs.NewConn(nc)
+	ver := "9P2000"
+	if dotu {
+		ver = "9P2000.u"
+	}
+	nc.in <- refEncode(Tversion, NOTAG, []refItem{refU32(8192), refS(ver)}, dotu)
+	vxQuiesce()
+	au := []refItem{refU32(vxU32("afid")), refS("u0"), refS("")}
+	if dotu {
+		au = append(au, refU32(0))
+	}
+	nc.in <- refEncode(Tauth, 1, au, dotu)
+	vxQuiesce()
+	att := func(fid, afid uint32, aname string) []byte {
+		it := []refItem{refU32(fid), refU32(afid), refS(""), refS(aname)}
+		if dotu {
+			it = append(it, refU32(0))
+		}
+		return refEncode(Tattach, 2, it, dotu)
+	}
+	nc.in <- att(1, NOFID, "")
+	vxQuiesce()
+	nc.in <- att(2, 1, "")
+	vxQuiesce()
+	nc.in <- att(3, NOFID, vxString("aname", 2))
+	vxQuiesce()
+	nc.in <- refEncode(Tclunk, 3, []refItem{refU32(vxU32("clunk"))}, dotu)
+	vxQuiesce()
+	fr, ok := vxFrames(nc.wire)
+	vxAssert(ok && len(fr) == 6, "every-request-answered")
+	nc.hangup()
+	vxQuiesce()
+	vxReach("done")
+}
